@@ -302,13 +302,23 @@ nfa, with no epsilon transition
             start_eclose = self.eclose_iterable(self._start_state)
         else:
             start_eclose = self._start_state
-        start_state = to_single_state(start_eclose)
+        merged_states = {}
+        taken = set()
+
+        def merge(states):
+            # Two different sets of states never get the same merged state
+            key = frozenset(states)
+            if key not in merged_states:
+                merged_states[key] = to_distinct_single_state(states, taken)
+            return merged_states[key]
+
+        start_state = merge(start_eclose)
         dfa.add_start_state(start_state)
         to_process = [start_eclose]
         processed = {start_state}
         while to_process:
             current = to_process.pop()
-            s_from = to_single_state(current)
+            s_from = merge(current)
             for symb in self._input_symbols:
                 all_trans = [self._transition_function(x, symb)
                              for x in current]
@@ -320,7 +330,7 @@ nfa, with no epsilon transition
                 # Eclose added
                 if eclose:
                     state = self.eclose_iterable(state)
-                state_merged = to_single_state(state)
+                state_merged = merge(state)
                 dfa.add_transition(s_from, symb, state_merged)
                 if state_merged not in processed:
                     processed.add(state_merged)
@@ -977,6 +987,32 @@ def to_single_state(l_states: Iterable[State]) -> State:
             values.append("TRASH")
     values = sorted(values)
     return State(";".join(values))
+
+
+def to_distinct_single_state(l_states: Iterable[State], taken: Set[State]) \
+        -> State:
+    """ Merge a list of states into a state which is not in taken
+
+    Parameters
+    ----------
+    l_states : list of :class:`~pyformlang.finite_automaton.State`
+        A list of states
+    taken : set of :class:`~pyformlang.finite_automaton.State`
+        The merged states already in use, updated with the result
+
+    Returns
+    ----------
+    state : :class:`~pyformlang.finite_automaton.State`
+        The merged state
+    """
+    merged = to_single_state(l_states)
+    base_value = merged.value
+    idx = 0
+    while merged in taken:
+        idx += 1
+        merged = State(base_value + "#" + str(idx))
+    taken.add(merged)
+    return merged
 
 
 def combine_state_pair(state0, state1):
